@@ -366,6 +366,11 @@ func (h *Handler) handleCopyMove(w http.ResponseWriter, r *http.Request) (status
 	if slashClean(dst) == slashClean(src) {
 		return http.StatusForbidden, errDestinationEqualsSource
 	}
+	if d := slashClean(dst); d == "/" || strings.HasPrefix(slashClean(src), d+"/") {
+		// Overwriting a collection with one of its own members would
+		// remove the source along with the destination.
+		return http.StatusForbidden, errInvalidDestination
+	}
 
 	ctx := r.Context()
 
